@@ -11,3 +11,15 @@ func init() {
 		Assumptions: []string{"storage faults respect the io.Writer/io.Reader contracts (no silent short write)", "the structural validator is an independent reading of doc/spec/rac-spec.md"},
 	})
 }
+
+func init() {
+	register(&propDef{
+		ID: "C15", Engine: "disksim", Pkg: "./engines/disksim", Level: "exploration",
+		Runs:   map[string]int{"quick": 60000, "thorough": 3000000},
+		MaxSec: map[string]float64{"quick": 120, "thorough": 2400},
+		Rule: "one run = one byte string presented as a RAC file: a valid file written by the real rac.Writer (stub or zlib codec) or a node graph assembled directly from the spec (chains of depth 1..120, with or without a cycle), damaged before open by 0-3 mutations (13 structured index-node mutations with the checksum repaired 7 times in 8; bit/byte flips, truncation, zeroed span, duplicated span, torn tail; claimed size != real size), then opened, walked, seeked and decoded through ChunkReader and rac.Reader on an operation-counting disk. distinct = distinct (file bytes, claimed size) hashes; non-trivial = at least one mutation or a hand-assembled graph",
+		Real: []string{"lib/rac ChunkReader, Reader; lib/readerat; lib/raczlib; lib/internal/racdict"},
+		Stub: []string{"io.ReadSeeker / io.ReaderAt (op-counting immutable simulated disk; budget exhaustion fails the operation)", "stub codec reader for the 'verifID' long codec"},
+		Assumptions: []string{"the stored bytes do not change while a reader is open", "work bound: 16*(CompressedSize/32)+64 disk operations per ChunkReader call, which every spec-legal structure meets (no node repeats on a root-to-leaf path under the anti-loop rule)"},
+	})
+}
